@@ -45,6 +45,9 @@ pub fn parse_prefix_for_len<R: Octets>(
     let prefix_bytes = prefix_bits_to_bytes(prefix_bits);
     let res = match afi {
         Afi::Ipv4 => {
+            if prefix_bytes > 4 {
+                return Err(ParseError::form_error("illegal prefix length"));
+            }
             let mut b = [0u8; 4];
             //b[..prefix_bytes].copy_from_slice(parser.peek(prefix_bytes)?);
             parser.parse_buf(&mut b[..prefix_bytes])?;
@@ -53,6 +56,9 @@ pub fn parse_prefix_for_len<R: Octets>(
             )?
         },
         Afi::Ipv6 => {
+            if prefix_bytes > 16 {
+                return Err(ParseError::form_error("illegal prefix length"));
+            }
             let mut b = [0u8; 16];
             //b[..prefix_bytes].copy_from_slice(parser.peek(prefix_bytes)?);
             parser.parse_buf(&mut b[..prefix_bytes])?;
